@@ -180,6 +180,46 @@ def flag_cases(cmd, rng, limit=256):
         yield fill_derived(cmd, a, rng)
 
 
+def small_domain_cases(cmd, rng):
+    """every value of every field of at most 8 bits (page codes, service actions, protect values ...), the required arguments
+    random, the optional ones left at their defaults, once more with all flags given as 0 and as 1"""
+    req = [k for k, v in cmd.args.items() if v[2] is S.REQ or k in cmd.facade_req]
+    flags = flag_args(cmd)
+    for name, (kind, width, _d) in cmd.args.items():
+        if kind != "u" or not 2 <= width <= 8:
+            continue
+        for fl in ("default", "zero", "ones"):
+            r = random_args(cmd, rng)
+            for val in range(1 << width):
+                a = {k: r[k] for k in req}
+                if fl != "default":
+                    for f in flags:
+                        a[f] = 0 if fl == "zero" else 1
+                a[name] = val
+                if cmd.xfer == "ata":
+                    full = dict(defaults(cmd))
+                    full.update(a)
+                    _ata_clip(cmd, full, S.CAP)
+                    a = {k: full[k] for k in set(a) | {"blocksize"} if k in full}
+                yield fill_derived(cmd, a, rng)
+
+
+class IntSub(int):
+    """an int subclass, as callers get from enum.IntEnum / IntFlag members or numpy-style wrappers"""
+
+
+def typed_variant(cmd, a):
+    """the same arguments with flags given as bool and integers as instances of an int subclass"""
+    out = {}
+    for k, v in a.items():
+        kind = cmd.args.get(k, (None,))[0]
+        if kind == "u" and isinstance(v, int) and not isinstance(v, bool):
+            out[k] = bool(v) if cmd.args[k][1] == 1 else IntSub(v)
+        else:
+            out[k] = v
+    return out
+
+
 def nontrivial_args(a):
     for k, v in a.items():
         if k in ("blocksize", "data"):
